@@ -192,6 +192,9 @@ type Gen struct {
 	// resolve through the heap before the havoc, whenever they are first used
 	parent *Heap
 	keep   func(key string) bool
+	// keepOld: memory keys ("M:") of which only the blocks that existed before the havoc are spared (the havocing code
+	// writes slice/array elements only in blocks it allocates itself)
+	keepOld func(key string) bool
 }
 
 type Heap struct {
@@ -232,6 +235,12 @@ func (q *Q) heapGet(h *Heap, key string) Term {
 		if !q.declared[name] {
 			q.declared[name] = true
 			q.lines = append(q.lines, fmt.Sprintf("(declare-const %s %s)", name, sort))
+			if h.gen.parent != nil && h.gen.keepOld != nil && strings.HasPrefix(key, "M:") && h.gen.keepOld(key) {
+				old := q.heapGet(h.gen.parent, key)
+				a := q.heapGet(h.gen.parent, allocKey)
+				q.lines = append(q.lines, fmt.Sprintf("(assert (forall ((b Int)) (! (=> (and (< b %s) (< (- (* 64 %s)) b)) (= (select %s b) (select %s b))) :pattern ((select %s b)))))",
+					a.S, a.S, name, old.S, name))
+			}
 		}
 		t = Term{name, sort}
 	} else {
